@@ -178,6 +178,15 @@ func ruleSatOverflow(c *Ctx, r *R) {
 						op = token.LEQ
 					}
 				}
+				// a float compared with a constant beyond the 64-bit integers (`math.Abs(v) < 1e21`) is no range test for a
+				// conversion to an integer
+				if fb, ok := v.Type().Underlying().(*types.Basic); ok && fb.Info()&types.IsFloat != 0 {
+					if k, ok := y.(*ssa.Const); ok && k.Value != nil {
+						if f, _ := constantFloat(k); f > satFloatLimit || f < -satFloatLimit {
+							continue
+						}
+					}
+				}
 				// |v| compared with something: the side on which |v| is smaller bounds v from both sides
 				if ac, ok := x.(*ssa.Call); ok && !saturated(y, 0) {
 					if cal := ac.Call.StaticCallee(); cal != nil && cal.Pkg != nil && cal.Pkg.Pkg.Path() == "math" && cal.Name() == "Abs" && sameSSA(stripConv(ac.Call.Args[0]), v, 0) {
@@ -301,6 +310,10 @@ func ruleSatOverflow(c *Ctx, r *R) {
 					if !ok || fb.Kind() != types.Float64 {
 						continue
 					}
+					satFloatLimit = 9223372036854775808.0 // 2^63
+					if tb.Info()&types.IsUnsigned != 0 {
+						satFloatLimit = 18446744073709551616.0 // 2^64
+					}
 					src, ok := x.X.(*ssa.Call)
 					if !ok || src.Call.StaticCallee() == nil || src.Call.StaticCallee().Name() != "toIntegerFloat" {
 						// any other float64: the same rule (census of every float-to-integer conversion of the package)
@@ -349,6 +362,10 @@ func ruleSatOverflow(c *Ctx, r *R) {
 	}
 	r.ok("census", "-", fmt.Sprintf("%d arithmetic uses of saturated integers, %d integer conversions of toIntegerFloat results and %d other float64-to-integer conversions examined", nA, nB, nC))
 }
+
+// satFloatLimit: the largest constant that counts as a range test for the float-to-integer conversion being judged (set
+// per conversion from the signedness of its target).
+var satFloatLimit = 18446744073709551616.0
 
 // floatInRange: the float64 value is in the range of every 64-bit integer type by construction: the remainder of
 // math.Mod by a constant, a conversion from an integer, a constant, or sums/products of such with constants are NOT
